@@ -274,6 +274,18 @@ theorem step_spec (e : Env) (t : Tbl) (op : Op) (hop : OpOK e op) :
     intro b hb
     exact openRead_present e t d n b hop hb
 
+/-- The state part of the refinement holds for every model variant and every operation: the variant
+    switches only change what `has` / `openRead` *answer*, never the table. -/
+theorem step_state (e : Env) (t : Tbl) (op : Op) : abs (step e t op).2 = specStep e (abs t) op := by
+  cases op with
+  | reset => exact (step_spec e t .reset trivial).2
+  | addBuf n b => exact (step_spec e t (.addBuf n b) trivial).2
+  | addFile d f => exact (step_spec e t (.addFile d f) trivial).2
+  | del n => exact (step_spec e t (.del n) trivial).2
+  | hasFile d f => exact (step_spec e t (.hasFile d f) trivial).2
+  | has n => simp [step, specStep, specEffect, Effect.apply]
+  | openRead d n => simp [step, specStep, specEffect, Effect.apply]
+
 /-! ## histories on the abstract machine -/
 
 theorem specRun_append (e : Env) (m : Abs) (a b : List Op) :
@@ -451,6 +463,14 @@ theorem run_refines (e : Env) (t : Tbl) (ops : List Op) (hops : ∀ op ∈ ops, 
     rw [hs.2] at hr
     simp only [run, Sat, specRun]
     exact ⟨⟨hs.1, hr.1⟩, hr.2⟩
+
+theorem run_state (e : Env) (t : Tbl) (ops : List Op) :
+    abs (run e t ops).2 = specRun e (abs t) ops := by
+  induction ops generalizing t with
+  | nil => simp [run, specRun]
+  | cons op ops ih =>
+    simp only [run, specRun]
+    rw [ih, step_state]
 
 theorem run_outputs_length (e : Env) (t : Tbl) (ops : List Op) : (run e t ops).1.length = ops.length := by
   induction ops generalizing t with
